@@ -237,3 +237,61 @@ example : (bridgeRunActs (bridgeInit [1, 2]) [.occupy 2, .start, .send 1, .relea
     [.ok, .raiseOSError, .dropped, .ok, .ok, .delivered, .ok, .dropped] := by decide
 
 end Props.C17
+
+/-
+Configured port 0 ("let the system choose"): the kernel never refuses such a bind, so `create_datagram_endpoint` succeeds even while
+this bridge already listens for that entry.  `startLoopZ` is `BridgeC.startLoop` with that one difference.
+
+* `startZ_eq` — a configuration without port 0 is not affected: every theorem above is about the code as it runs there.
+* `zero_port_leak` — finding F9 (open, `known_findings.json`), a checked fact about the code-level model, replayed on the
+  implementation by the C17 check: ports `[0]`; start, start, stop leaves a transport open although nothing is running.
+* `zero_port_fine_without_restart` — the same configuration without a start-while-running: clean.
+-/
+namespace Props.C17
+open Model
+
+/-- what the kernel says: port 0 can always be bound (it picks a free port); any other port iff nobody holds it -/
+def freeZ (c : BridgeC) (p : Nat) : Bool := p == 0 || c.free p
+
+def startLoopZ (c : BridgeC) : List Nat → List Nat → BridgeC × Out
+  | [], _ => ({ c with running := true }, .ok)
+  | p :: ps, started =>
+    if freeZ c p then startLoopZ (c.bind p) ps (started ++ [p])
+    else (c.rollback started, .raiseOSError)
+
+def stepZ (c : BridgeC) : BridgeAct → BridgeC × Out
+  | .start => startLoopZ c c.ports []
+  | a => bridgeStepC c a
+
+def runZ (c : BridgeC) : List BridgeAct → BridgeC
+  | [] => c
+  | a :: as => runZ (stepZ c a).1 as
+
+theorem startLoopZ_eq (c : BridgeC) (ps started : List Nat) (h : 0 ∉ ps) : startLoopZ c ps started = c.startLoop ps started := by
+  induction ps generalizing c started with
+  | nil => rfl
+  | cons p ps ih =>
+    have hp : p ≠ 0 := fun e => h (by simp [e])
+    have hps : 0 ∉ ps := fun m => h (List.mem_cons_of_mem _ m)
+    simp only [startLoopZ, BridgeC.startLoop, freeZ]
+    have : (p == 0) = false := by simpa using hp
+    simp only [this, Bool.false_or]
+    split
+    · exact ih _ _ hps
+    · rfl
+
+/-- without port 0 in the configuration the two machines are the same machine -/
+theorem startZ_eq (c : BridgeC) (a : BridgeAct) (h : 0 ∉ c.ports) : stepZ c a = bridgeStepC c a := by
+  cases a <;> simp [stepZ, bridgeStepC, startLoopZ_eq c c.ports [] h]
+
+/-- F9: ports [0]; start, start, stop — not running, and a transport is still open (it would still deliver) -/
+theorem zero_port_leak :
+    let c := runZ (bridgeInitC [0]) [.start, .start, .stop]
+    c.running = false ∧ c.openT = [(0, 0)] := by decide
+
+/-- the same configuration with plain start/stop cycles leaves nothing behind -/
+theorem zero_port_fine_without_restart :
+    (runZ (bridgeInitC [0]) [.start, .stop, .start, .stop]).openT = [] ∧
+    (runZ (bridgeInitC [0, 7]) [.start, .send 7, .stop]).openT = [] := by decide
+
+end Props.C17
